@@ -90,6 +90,7 @@ void run_C17(vh::Ctx& c) {
         if (r.coin(0.2)) a = 0;
         if (r.coin(0.2)) { a = (double)r.range(-5, 5); w = (double)r.range(1, 40); }
         double b = a + w;
+        if (!(b > a)) b = std::nextafter(a, INFINITY);  // the property is about a<b; w may vanish against a large |a|
         what = vh::fmt("linear grid nx=%u [%.17g,%.17g]", nx, a, b);
         c.desc(what);
         req_a = a; req_b = b;
